@@ -6,6 +6,10 @@ secrets directories) run in a forked, pristine child each.  Per instantiation th
   (a) the Lean state machine `DW.Env.step` (outcome AND the library's cache state: environ / var_names / cleaned_to_env),
   (b) `ref_resolve` below — the C18 statement written independently in Python (also diffed against Lean's `refResolve`),
 and os.environ is snapshotted before/after.
+
+Histories also vary: one mapping object shared by several classes as Meta.field_to_env_var (`case['maps']`, `cls['map']`),
+Literal-typed fields whose type rejects some values (`case['lit']`, `f['typ']`), dotenv files / secrets directories that
+are edited between instantiations (ops `write` / `wdir`), and failure-then-recovery sequences (`Gen.recovery`).
 """
 from __future__ import annotations
 
@@ -124,6 +128,30 @@ def meets(outcome, exp):
     return True
 
 
+def bad_value(case, f, v):
+    """does the field's type reject the string `v`?  Only Literal-typed fields ('typ': 'lit', members = case['lit']) do"""
+    return f.get('typ') == 'lit' and v not in set(case.get('lit') or [])
+
+
+def meets_typed(case, cls, outcome, exp):
+    """`meets`, extended to fields whose type can reject the chosen string (the statement: 'the chosen string is converted by
+    the field's type'): a field all of whose admissible strings are rejected makes the instantiation fail with ParseError
+    naming a field whose chosen string is rejected (MissingVars is accepted instead when a field is missing as well: the
+    statement does not rank the two errors); an instance is only acceptable when every field holds an accepted string"""
+    fields = {f['name']: f for f in cls['fields']}
+    surely = [n for n, e in exp if e[0] == 'oneof' and all(bad_value(case, fields[n], v) for v in e[1])]
+    maybe = [n for n, e in exp if e[0] == 'oneof' and any(bad_value(case, fields[n], v) for v in e[1])]
+    if not maybe:
+        return meets(outcome, exp)
+    if 'raised' in outcome:
+        return outcome['raised'] == 'ParseError' and outcome.get('field') in maybe
+    if 'missing' in outcome:
+        return meets(outcome, exp)
+    if surely or 'ok' not in outcome:
+        return False
+    return meets(outcome, exp) and not any(r[0] == 'val' and bad_value(case, fields[n], r[1]) for n, r in outcome['ok'])
+
+
 def attribute(case, cls, prefix, kw, eff, outcome, exp, last_win):
     """known-finding key explaining why `outcome` does not meet `exp`, or None"""
     got = dict((n, r) for n, r in outcome.get('ok', []))
@@ -180,7 +208,10 @@ def class_source(i, cls, tmp):
         meta.append(f'        secrets_dir = {paths[0]!r}' if len(paths) == 1 and cls.get('single') else f'        secrets_dir = {paths!r}')
     f2v = {f['name']: (f['explicit'][0] if len(f['explicit']) == 1 else tuple(f['explicit']))
            for f in cls['fields'] if f.get('explicit') and f.get('via') == 'meta'}
-    if f2v:
+    if cls.get('map') is not None:
+        # the mapping is a module-level constant that other classes of the history name as well (one dict object)
+        meta.append(f'        field_to_env_var = MAP{cls["map"]}')
+    elif f2v:
         meta.append(f'        field_to_env_var = {f2v!r}')
     if meta:
         lines.append('    class _(EnvWizard.Meta):')
@@ -188,14 +219,15 @@ def class_source(i, cls, tmp):
     for f in cls['fields']:
         d = f'D:{f["name"]}'
         ex = f.get('explicit')
+        tp = 'LIT' if f.get('typ') == 'lit' else 'str'       # LIT = Literal[every accepted token of the history]
         if ex and f.get('via') in ('env_field', 'json_field'):
             keys = repr(ex[0]) if len(ex) == 1 else repr(tuple(ex))
             dflt = f', default={d!r}' if f['dflt'] else ''
-            lines.append(f'    {f["name"]}: str = {f["via"]}({keys}{dflt})')
+            lines.append(f'    {f["name"]}: {tp} = {f["via"]}({keys}{dflt})')
         elif f['dflt']:
-            lines.append(f'    {f["name"]}: str = {d!r}')
+            lines.append(f'    {f["name"]}: {tp} = {d!r}')
         else:
-            lines.append(f'    {f["name"]}: str')
+            lines.append(f'    {f["name"]}: {tp}')
     if not cls['fields']:
         lines.append('    pass')
     return name, '\n'.join(lines) + '\n'
@@ -212,6 +244,29 @@ def peek_state():
             'accessed': bool(Env._accessed_cleaned_to_env)}
 
 
+def map_dict(pairs):
+    """a shared Meta.field_to_env_var constant as the user writes it (one name: str, several: tuple)"""
+    return {n: (ex[0] if len(ex) == 1 else tuple(ex)) for n, ex in pairs}
+
+
+def write_dir(d, content):
+    """(re)write a secrets directory wholesale: one file per variable"""
+    if os.path.isdir(d):
+        shutil.rmtree(d)
+    os.mkdir(d)
+    for k, v in content:
+        with open(os.path.join(d, k), 'w') as fh:
+            fh.write(v)
+
+
+def write_file(path, content):
+    with open(path, 'w') as fh:
+        fh.write(''.join(f'{k}={v}\n' for k, v in content))
+
+
+CHILD_EXTRA = {}       # filled by child_run in the forked child: observations that belong to the whole history
+
+
 def child_run(case, tmp):
     """runs in the forked child; returns the list of per-op observations"""
     import logging
@@ -226,20 +281,21 @@ def child_run(case, tmp):
     for k, v in case['os']:
         os.environ[k] = v
     for j, content in enumerate(case['files']):
-        with open(os.path.join(tmp, f'f{j}.env'), 'w') as fh:
-            fh.write(''.join(f'{k}={v}\n' for k, v in content))
+        write_file(os.path.join(tmp, f'f{j}.env'), content)
     for j, content in enumerate(case['dirs']):
-        d = os.path.join(tmp, f'd{j}')
-        os.mkdir(d)
-        for k, v in content:
-            with open(os.path.join(d, k), 'w') as fh:
-                fh.write(v)
+        write_dir(os.path.join(tmp, f'd{j}'), content)
     import sys
     import types
+    from typing import Literal
     mod = types.ModuleType('dwv_c18')
     sys.modules['dwv_c18'] = mod
     ns = mod.__dict__
     ns.update({'EnvWizard': EnvWizard, 'env_field': env_field, 'json_field': json_field})
+    if case.get('lit'):
+        ns['LIT'] = Literal[tuple(case['lit'])]
+    maps = [map_dict(pairs) for pairs in case.get('maps') or []]
+    for k, m in enumerate(maps):
+        ns[f'MAP{k}'] = m
     classes = []
     for i, cls in enumerate(case['classes']):
         name, src = class_source(i, cls, tmp)
@@ -255,6 +311,12 @@ def child_run(case, tmp):
             outs.append({})
         elif t == 'del':
             os.environ.pop(op['k'], None)
+            outs.append({})
+        elif t == 'write':
+            write_file(os.path.join(tmp, f'f{op["file"]}.env'), op['content'])
+            outs.append({})
+        elif t == 'wdir':
+            write_dir(os.path.join(tmp, f'd{op["dir"]}'), op['content'])
             outs.append({})
         elif t == 'reload':
             before = dict(os.environ)
@@ -293,7 +355,13 @@ def child_run(case, tmp):
                 res = {'missing': re.findall(r'^\s+- (\w+) -> ', e.fields, re.M)}
             except Exception as e:
                 res = {'raised': type(e).__name__, 'text': repr(e)[:200]}
+                if isinstance(getattr(e, 'field_name', None), str):
+                    res['field'] = e.field_name
             outs.append({'out': res, 'state': peek_state(), 'os_same': dict(os.environ) == before})
+    if maps:
+        # the user's own mapping objects, as they are after the history (a library that writes into them couples classes)
+        CHILD_EXTRA['maps_after'] = [sorted([n, list(v) if isinstance(v, tuple) else [v]] for n, v in m.items())
+                                     if isinstance(m, dict) and all(isinstance(n, str) for n in m) else repr(m) for m in maps]
     return outs
 
 
@@ -310,7 +378,9 @@ def run_forked(cases, par=8):
                 code = 0
                 try:
                     os.close(r)
-                    data = json.dumps({'outs': child_run(cases[idx], tmp)})
+                    CHILD_EXTRA.clear()
+                    outs = child_run(cases[idx], tmp)
+                    data = json.dumps(dict(CHILD_EXTRA, outs=outs))
                 except BaseException:
                     data = json.dumps({'harness_error': traceback.format_exc()[-1500:]})
                     code = 1
@@ -339,29 +409,60 @@ class Gen:
     def __init__(self, rng):
         self.rng = rng
         self.n = 0
+        self.bad = 0.0      # chance that the next value token is one the Literal-typed fields of the history reject
+        self.good = []      # the accepted tokens issued for the current history
 
     def tok(self, tag):
         self.n += 1
-        return f'{tag}{self.n}'
+        if self.bad and self.rng.random() < self.bad:
+            return f'BAD{self.n}'
+        t = f'{tag}{self.n}'
+        self.good.append(t)
+        return t
+
+    def edit(self, content, pool, tag):
+        """a dotenv file / secrets directory after the user edited it: entries kept, given a new value, dropped, added"""
+        rng = self.rng
+        out = []
+        for k, v in content:
+            x = rng.random()
+            if x < 0.4:
+                out.append([k, self.tok(tag)])
+            elif x < 0.6:
+                out.append([k, v])
+        have = {k for k, _ in out}
+        for k in rng.sample(pool, min(len(pool), rng.choice([0, 1, 1, 2]))):
+            if k not in have:
+                out.append([k, self.tok(tag)])
+        return out
 
     def history(self, max_ops):
         rng = self.rng
+        typed = rng.random() < 0.3           # some fields are Literal-typed and some values are rejected by them
+        self.bad, self.good = (0.12 if typed else 0.0), []
         stems = rng.sample(STEMS, rng.choice([1, 2, 2, 3]))
         ncls = rng.choice([1, 1, 2, 3])
         classes, pool = [], []
         custom = ['CUSTOM_A', 'other', 'Third-Name']
+        named = []                           # (field name, words) used so far: later classes re-use some (like-named fields)
         for _ in range(ncls):
             prefix = rng.choice(PREFIXES)
             p = prefix or ''
             prio = rng.choice(PRIOS + ['SCREAMING_SNAKE'])
             fields, used = [], set()
             for _ in range(rng.choice([0, 1, 2, 2, 3, 4]) if ncls > 1 else rng.choice([1, 2, 3, 4])):
-                words = rng.choice(stems)
-                name = rng.choice(ident_spellings(words))
+                if named and rng.random() < 0.35:
+                    name, words = rng.choice(named)
+                else:
+                    words = rng.choice(stems)
+                    name = rng.choice(ident_spellings(words))
                 if name in used:
                     continue
                 used.add(name)
+                named.append((name, words))
                 f = {'name': name, 'dflt': rng.random() < 0.6}
+                if typed and rng.random() < 0.5:
+                    f['typ'] = 'lit'
                 if rng.random() < 0.3:
                     k = rng.choice([1, 1, 2, 3])
                     cands = custom + spellings(rng.choice(stems))[:6]
@@ -378,6 +479,26 @@ class Gen:
             if prefix is not None:
                 cls['prefix'] = prefix
             classes.append(cls)
+        maps = []
+        if ncls >= 2 and rng.random() < 0.5:
+            # ONE mapping object (a module constant) named as Meta.field_to_env_var by several classes: its entries are those
+            # the classes of the group wanted, so a class may find names of fields it does not have, and a field mapped by
+            # env_field / json_field in one class can be left to the letter-case lookup in another
+            group = sorted(rng.sample(range(ncls), rng.choice([2, ncls])))
+            shared = {}
+            for ci in group:
+                for f in classes[ci]['fields']:
+                    if f.get('via') == 'meta' and f['name'] not in shared:
+                        shared[f['name']] = list(f['explicit'])
+            if not shared or rng.random() < 0.3:
+                shared.setdefault(rng.choice(ident_spellings(rng.choice(stems))), [rng.choice(custom)])
+            for ci in group:
+                classes[ci]['map'] = 0
+                for f in classes[ci]['fields']:
+                    if f['name'] in shared:
+                        f['explicit'], f['via'] = list(shared[f['name']]), 'meta'
+                        pool += [(classes[ci].get('prefix') or '') + n for n in f['explicit']]
+            maps.append(sorted([n, ex] for n, ex in shared.items()))
         if not pool:
             pool = spellings(stems[0])
         pool = sorted(set(n for n in pool if n and '=' not in n))
@@ -396,10 +517,27 @@ class Gen:
             if dirs and rng.random() < 0.3:
                 cls['secrets'] = rng.sample(range(ndirs), rng.choice([1, min(2, ndirs)]))
                 cls['single'] = cls.get('single', rng.random() < 0.5)
+        # files named by a Meta.env_file are read when the class is created (findings/meta-env-file-read-once.md): only the
+        # other files are rewritten during a history
+        bound = {j for cls in classes for j in cls.get('dotenv') or []}
+        free_files = [j for j in range(nfiles) if j not in bound]
+        curf, curd = [list(c) for c in files], [list(c) for c in dirs]
+        # half of the histories with files keep passing the SAME selection of files (the usual way _env_file is used)
+        fav = rng.sample(range(nfiles), rng.choice([1, 1, min(2, nfiles)])) if files and rng.random() < 0.5 else None
         osenv = [[n, self.tok('o')] for n in rng.sample(pool, rng.randint(0, min(len(pool), 6)))]
         cur = {k for k, _ in osenv}
         ops = []
         for _ in range(rng.randint(2, max_ops)):
+            if (free_files or dirs) and rng.random() < 0.12:
+                if free_files and (not dirs or rng.random() < 0.7):
+                    j = rng.choice(free_files)
+                    curf[j] = self.edit(curf[j], pool, 'f')
+                    ops.append({'t': 'write', 'file': j, 'content': curf[j]})
+                else:
+                    j = rng.randrange(ndirs)
+                    curd[j] = self.edit(curd[j], pool, 's')
+                    ops.append({'t': 'wdir', 'dir': j, 'content': curd[j]})
+                continue
             x = rng.random()
             if x < 0.28:
                 k = rng.choice(pool)
@@ -420,15 +558,128 @@ class Gen:
                         op['kw'].append([f['name'], self.tok('k')])
                 if rng.random() < 0.1:
                     op['prefix'] = rng.choice([q for q in PREFIXES if q is not None] + [None])
-                if files and rng.random() < 0.3:
-                    op['envfile'] = rng.sample(range(nfiles), rng.choice([0, 1, 1, min(2, nfiles), nfiles]))
+                if files and rng.random() < (0.6 if fav else 0.3):
+                    if fav and rng.random() < 0.75:
+                        op['envfile'] = list(fav)
+                    else:
+                        op['envfile'] = rng.sample(range(nfiles), rng.choice([0, 1, 1, min(2, nfiles), nfiles]))
                 if dirs and rng.random() < 0.3:
                     op['secretsdir'] = rng.sample(range(ndirs), rng.choice([0, 1, 1, ndirs]))
                 op['single'] = rng.random() < 0.5
                 ops.append(op)
         if not any(o['t'] == 'inst' for o in ops):
             ops.append({'t': 'inst', 'cls': 0, 'reload': True, 'kw': [], 'single': False})
-        return {'os': osenv, 'files': files, 'dirs': dirs, 'classes': classes, 'ops': ops}
+        case = {'os': osenv, 'files': files, 'dirs': dirs, 'classes': classes, 'ops': ops}
+        if maps:
+            case['maps'] = maps
+        if typed:
+            case['lit'] = list(self.good) or ['g0']
+        self.bad = 0.0
+        return case
+
+    def recovery(self, max_rounds):
+        """failure, then recovery.  An instantiation fails — a value its field's type rejects (ParseError), a required field
+        without any source (MissingVars), or both; then the user repairs the environment, spelling the repaired variable at
+        ANY tier of the lookup; then the same class or its sibling (same names, other defaults) is instantiated with
+        _reload=True.  What a failed instantiation leaves behind (process-wide caches, the class) must not show."""
+        rng = self.rng
+        self.bad, self.good = 0.0, []
+        stems = rng.sample(STEMS, rng.choice([2, 2, 3]))
+        prefix = rng.choice(PREFIXES)
+        p = prefix or ''
+        prio = rng.choice(PRIOS + ['SCREAMING_SNAKE', 'SCREAMING_SNAKE'])
+        fields = []
+        for words in stems:
+            f = {'name': rng.choice(ident_spellings(words)), 'dflt': rng.random() < 0.4, 'words': words}
+            if rng.random() < 0.5:
+                f['typ'] = 'lit'
+            if rng.random() < 0.15:
+                f['explicit'], f['via'] = [rng.choice(['CUSTOM_A', 'other'])], rng.choice(['env_field', 'json_field', 'meta'])
+            fields.append(f)
+        if not any(f.get('typ') for f in fields):
+            rng.choice(fields)['typ'] = 'lit'
+        if all(f['dflt'] for f in fields):
+            rng.choice(fields)['dflt'] = False
+        A = {'fields': fields, 'prio': prio}
+        B = {'fields': [dict(f, dflt=rng.random() < 0.5) for f in fields], 'prio': rng.choice([prio, prio, rng.choice(PRIOS)])}
+        if prefix is not None:
+            A['prefix'] = B['prefix'] = prefix
+
+        def spell(f, how):
+            if f.get('explicit'):
+                return p + f['explicit'][0]
+            exact = tiers(prio, p + f['name'])
+            if how == 'exact':
+                return rng.choice(exact)
+            return rng.choice([s for s in spellings(split_prefix(p) + f['words']) if s not in exact] or exact)
+
+        def names_of(f):
+            return set(spellings(split_prefix(p) + f['words']) + tiers(prio, p + f['name']) + ([p + n for n in f.get('explicit') or []]))
+
+        env = {}                       # the process environment as the generator tracks it
+        for f in fields:
+            how = rng.choice(['exact', 'exact', 'exact', 'cleaned', 'absent'])
+            if how != 'absent':
+                env[spell(f, how)] = self.tok('o')
+        osenv = [[k, v] for k, v in env.items()]
+        ops = []
+
+        def setv(k, v):
+            env[k] = v
+            ops.append({'t': 'set', 'k': k, 'v': v})
+
+        def delv(k):
+            env.pop(k, None)
+            ops.append({'t': 'del', 'k': k})
+
+        def inst(ci, reload=True):
+            op = {'t': 'inst', 'cls': ci, 'reload': reload, 'kw': [], 'single': False}
+            for f in fields:
+                if rng.random() < 0.08:
+                    op['kw'].append([f['name'], self.tok('k')])
+            ops.append(op)
+
+        if rng.random() < 0.3:
+            inst(rng.randrange(2), rng.random() < 0.7)          # sometimes the failure is not the first use of the process
+        for _ in range(rng.randint(1, max_rounds)):
+            mode = rng.choice(['parse', 'parse', 'missing', 'both'])
+            broken = []
+            if mode in ('parse', 'both'):
+                f = rng.choice([f for f in fields if f.get('typ')])
+                present = [k for k in env if k in names_of(f)]
+                k = rng.choice(present) if present and rng.random() < 0.7 else spell(f, rng.choice(['exact', 'exact', 'cleaned']))
+                setv(k, f'BAD{self.n}')
+                self.n += 1
+                broken.append(('parse', f, k))
+            if mode in ('missing', 'both'):
+                f = rng.choice([f for f in fields if not f['dflt']])
+                if not any(b[1] is f for b in broken):
+                    for k in [k for k in env if k in names_of(f)]:
+                        delv(k)
+                    broken.append(('missing', f, None))
+            inst(0, rng.random() < 0.75)                         # expected to fail
+            rng.shuffle(broken)
+            for kind, f, k in broken:                            # the repair
+                if kind == 'parse' and rng.random() < 0.5:
+                    setv(k, self.tok('o'))
+                else:
+                    if k is not None:
+                        delv(k)
+                    for k2 in [k2 for k2 in env if k2 in names_of(f)]:
+                        if rng.random() < 0.5:
+                            delv(k2)
+                    setv(spell(f, rng.choice(['exact', 'cleaned', 'cleaned'])), self.tok('o'))
+            if rng.random() < 0.3:                               # an unrelated variable moves to another spelling
+                f = rng.choice(fields)
+                for k in [k for k in env if k in names_of(f)]:
+                    delv(k)
+                setv(spell(f, rng.choice(['exact', 'cleaned'])), self.tok('o'))
+            first = rng.randrange(2)
+            inst(first)
+            if rng.random() < 0.6:
+                inst(1 - first)
+        case = {'os': osenv, 'files': [], 'dirs': [], 'classes': [A, B], 'ops': ops, 'lit': list(self.good) or ['g0']}
+        return case
 
 
 def directed_cases():
@@ -541,20 +792,40 @@ def model_request(case, outs, quirks):
                         'dotenv': None if cls.get('dotenv') is None else [case['files'][j] for j in cls['dotenv']],
                         'secrets': None if cls.get('secrets') is None else [case['dirs'][j] for j in cls['secrets']]})
     ops = []
+    files, dirs = list(case['files']), list(case['dirs'])      # contents as they are when an operation runs
     for op, o in zip(case['ops'], outs):
         rank = sorted(v for _, v in ((o.get('state') or {}).get('cleaned') or []))
         if op['t'] in ('set', 'del'):
             ops.append(op)
+        elif op['t'] == 'write':
+            files[op['file']] = op['content']
+        elif op['t'] == 'wdir':
+            dirs[op['dir']] = op['content']
         elif op['t'] == 'reload':
             ops.append({'t': 'reload', 'rank': rank})
         else:
             m = {'t': 'inst', 'cls': op['cls'], 'kw': op['kw'], 'reload': op['reload'], 'rank': rank}
+            cls = case['classes'][op['cls']]
             if 'prefix' in op:
                 m['prefix'] = op['prefix'] or ''
             if 'envfile' in op:
-                m['envfile'] = [case['files'][j] for j in op['envfile']]
+                m['envfile'] = [files[j] for j in op['envfile']]
             if 'secretsdir' in op:
-                m['secretsdir'] = [case['dirs'][j] for j in op['secretsdir']]
+                m['secretsdir'] = [dirs[j] for j in op['secretsdir']]
+            elif cls.get('secrets') is not None:
+                m['secretsdir'] = [dirs[j] for j in cls['secrets']]     # Meta.secrets_dir is read at every instantiation
+            out = o.get('out') or {}
+            if out.get('raised') == 'ParseError' and out.get('field') in [f['name'] for f in cls['fields']]:
+                # the model has no value conversion.  What a ParseError at field k does to the library STATE is what an
+                # instantiation of the class cut after field k does, plus — when field k has no explicit mapping — one read of
+                # Env.cleaned_to_env (`_get_var_name`), which a field that no variable can match performs and nothing else.
+                k = [f['name'] for f in cls['fields']].index(out['field'])
+                cut = dict(classes[op['cls']], fields=list(classes[op['cls']]['fields'][:k + 1]))
+                if not cls['fields'][k].get('explicit'):
+                    cut['fields'].append({'name': 'zqNoSuchVariableQz', 'explicit': None, 'dflt': False})
+                classes.append(cut)
+                m['cls'] = len(classes) - 1
+                m['kw'] = [p for p in op['kw'] if p[0] in [f['name'] for f in cut['fields']]]
             ops.append(m)
     return {'op': 'c18', 'quirks': quirks, 'os': case['os'], 'classes': classes, 'ops': ops}
 
@@ -576,10 +847,18 @@ def canon_out(o):
     return o
 
 
-def overlays_of(case, cls, op):
+def overlays_of(case, cls, op, files=None, dirs=None):
+    """contents of the overlays an instantiation sees; `files` / `dirs` = the contents at that moment (default: as created).
+    Files named by Meta.env_file are taken as they were when the class was created: that is when the library reads them
+    (findings/meta-env-file-read-once.md); the generators never rewrite such a file."""
+    files = case['files'] if files is None else files
+    dirs = case['dirs'] if dirs is None else dirs
     sec = op['secretsdir'] if 'secretsdir' in op else (cls.get('secrets') or [])
-    dot = op['envfile'] if 'envfile' in op else (cls.get('dotenv') or [])
-    return [dict(case['dirs'][j]) for j in sec], [dict(case['files'][j]) for j in dot]
+    if 'envfile' in op:
+        dots = [dict(files[j]) for j in op['envfile']]
+    else:
+        dots = [dict(case['files'][j]) for j in (cls.get('dotenv') or [])]
+    return [dict(dirs[j]) for j in sec], dots
 
 
 def evaluate(ctx, i, case, res, quirks, reqs, pend):
@@ -592,12 +871,26 @@ def evaluate(ctx, i, case, res, quirks, reqs, pend):
     osenv = dict(case['os'])
     collide = False
     last_win = {}
+    files, dirs = list(case['files']), list(case['dirs'])
+    if case.get('maps'):
+        ctx.count('history_with_shared_mapping')
+        want = [sorted([n, list(ex)] for n, ex in pairs) for pairs in case['maps']]
+        if res.get('maps_after') != want:
+            ctx.fail('mapping-untouched', case, f'the dict objects the classes name as Meta.field_to_env_var were {want} and are '
+                     f'{res.get("maps_after")} after the history: the library wrote into the user\'s mapping (every class that '
+                     f'names the same object now sees the entries)')
     for k, (op, o) in enumerate(zip(case['ops'], outs)):
         if op['t'] == 'set':
             osenv[op['k']] = op['v']
             continue
         if op['t'] == 'del':
             osenv.pop(op['k'], None)
+            continue
+        if op['t'] == 'write':
+            files[op['file']] = op['content']
+            continue
+        if op['t'] == 'wdir':
+            dirs[op['dir']] = op['content']
             continue
         if not o['os_same']:
             ctx.fail('os-untouched', case, f'os.environ differs after operation #{k} ({op["t"]})')
@@ -606,15 +899,17 @@ def evaluate(ctx, i, case, res, quirks, reqs, pend):
             continue
         cls = case['classes'][op['cls']]
         prefix = (op['prefix'] if 'prefix' in op else cls.get('prefix')) or ''
-        secs, dots = overlays_of(case, cls, op)
+        secs, dots = overlays_of(case, cls, op, files, dirs)
         kw = dict(op['kw'])
         exp = ref_resolve(osenv, secs, dots, cls, prefix, kw)
         o['pyref'] = [[n, e] for n, e in exp]
         if any(e[0] == 'oneof' and len(e[1]) > 1 for _, e in exp):
             collide = True
+        if o['out'].get('raised') == 'ParseError':
+            ctx.count('inst_parse_error')
         if op['reload']:
             ctx.count('inst_reload')
-            if not meets(o['out'], exp):
+            if not meets_typed(case, cls, o['out'], exp):
                 eff = dict(osenv)
                 for d in secs + dots:
                     eff.update(d)
@@ -643,7 +938,12 @@ def run(ctx: C.Ctx):
                 'instantiation: outcome + environ/var_names/cleaned_to_env compared with the Lean state machine (set-iteration '
                 'tie-break passed as the observed winners), outcome of _reload=True instantiations judged against ref_resolve '
                 '(Python) which is also diffed against Lean refResolve; os.environ snapshot before/after. Non-trivial = every '
-                'history (distinct by content).')
+                'history (distinct by content). Further dimensions of the histories: ONE dict object named as Meta.field_to_env_var by '
+                'several classes (and checked to be unchanged afterwards), like-named fields across the classes of a history, '
+                'Literal-typed fields with values the type rejects (ParseError outcomes; the model follows the state through a class '
+                'cut at the failing field), dotenv files / secrets directories edited between instantiations (files of a '
+                'Meta.env_file excepted), the same _env_file selection passed repeatedly, and a failure-then-recovery family '
+                '(ParseError / MissingVars, repair spelled at any lookup tier, re-instantiation of the class and its sibling).')
     quirks, probes = probe_quirks()
     ctx.notes['quirks_probed'] = quirks
     ctx.trusted += ['C18: python-dotenv parses `KEY=value` lines and Path.read_text returns the secret file content verbatim (overlay '
@@ -683,7 +983,7 @@ def run(ctx: C.Ctx):
         if ctx.done(i) or (i >= ndirected and ctx.only is None and time.time() - ctx.t0 > budget):
             ctx.notes['stopped_at'] = i
             break
-        case = cases[i] if i < ndirected else g.history(max_ops)
+        case = cases[i] if i < ndirected else (g.recovery(3) if rng.random() < 0.15 else g.history(max_ops))
         if not ctx.begin_case(i):
             continue
         batch.append(case)
@@ -699,13 +999,14 @@ def run(ctx: C.Ctx):
             if 'r' not in o:
                 ctx.agree('history', case, 'impl', {'driver_error': o.get('err')})
                 continue
-            for k, (op, io, mo) in enumerate(zip(case['ops'], impl_outs, o['r']['outs'])):
+            sent = [(k, op, io) for k, (op, io) in enumerate(zip(case['ops'], impl_outs)) if op['t'] not in ('write', 'wdir')]
+            for (k, op, io), mo in zip(sent, o['r']['outs']):     # file / directory rewrites are not operations of the model
                 if op['t'] in ('set', 'del'):
                     continue
                 tag = {'op_index': k, 'case': case}
                 ctx.agree('state', tag, canon_state(io['state']), canon_state(mo['state']))
-                if op['t'] != 'inst':
-                    continue
+                if op['t'] != 'inst' or io['out'].get('raised') == 'ParseError':
+                    continue            # a failed conversion: the model carries the state only (see model_request)
                 ctx.agree('outcome', tag, canon_out(io['out']), canon_out(mo['out']))
                 # Lean lists one admissible value per matching NAME; compare as sets of values
                 mref = [[n, ([e[0], sorted(set(e[1]))] if e[0] == 'oneof' else e)] for n, e in mo['ref']]
